@@ -404,7 +404,10 @@ func checkC09(sc *Scenario) *CheckResult {
 		} else if clientSuccess(cv) {
 			res.violate("fault_became_success", sig, "request fault %+v (%s) but the client observed OK; backend saw %d messages, read error %q", *f, why, lenMsgs(view), readErr(view))
 		}
-		if sc.Backend.ReadAfterWrites > 0 && formEnveloped(c.Form) && cv.Incomplete != "" {
+		// (cv.Ends == 0: the length the handler had announced happens to be the size of the end that was
+		// written instead of the payload, so a strict parser takes the end for that payload - the same
+		// situation, one coincidence further)
+		if sc.Backend.ReadAfterWrites > 0 && formEnveloped(c.Form) && (cv.Incomplete != "" || (cv.Ends == 0 && !clientSuccess(cv))) {
 			// The duplex handler was in the middle of a frame (already forwarded on a streaming path) when
 			// the request fault ended the RPC: same rule as for a response cut inside a payload (2.1) -
 			// not OK, terminated, and what follows the truncated payload is a well-formed end.
